@@ -388,6 +388,18 @@ func workerPoolRule(P *Program, R *Report) {
 						if _, isFV := rootOfAddr(base).(*ssa.FreeVar); isFV {
 							badw = append(badw, "append to captured slice at "+P.Pos(x.Pos()))
 						}
+						if u, ok := base.(*ssa.UnOp); ok {
+							// spilled parameter: local := param; ... append(local[:k], v)
+							if al, ok := u.X.(*ssa.Alloc); ok {
+								for _, r := range referrersOf(al) {
+									if st, ok := r.(*ssa.Store); ok && st.Addr == ssa.Value(al) {
+										if pp, ok := st.Val.(*ssa.Parameter); ok {
+											base = pp
+										}
+									}
+								}
+							}
+						}
 						if p, ok := base.(*ssa.Parameter); ok {
 							badw = append(badw, "append to shared list parameter "+p.Name()+" at "+P.Pos(x.Pos()))
 						}
